@@ -110,6 +110,8 @@ class Model(HoloPyObject):
             if isinstance(item, np.ndarray) and item.ndim == 1:
                 item = list(item)
             yield key, item
+        if hasattr(self, 'calc_func'):
+            yield 'calc_func', self.calc_func
 
     @classmethod
     def from_yaml(cls, loader, node):
@@ -124,6 +126,8 @@ class Model(HoloPyObject):
                   'constraints': fields.get('constraints', [])}
         for key in ['optics', 'model']:
             kwargs.update(read_map(maps[key], parameters))
+        if 'calc_func' in fields:
+            kwargs['calc_func'] = fields['calc_func']
         model = cls(**kwargs)
         # ties made across sections are not rediscovered by the constructor
         model._parameters = parameters
